@@ -39,13 +39,16 @@ _SYS = None
 
 
 def _init():
-    """Coordinate-system objects 1..4 of the model: two distinct Cartesian, one cylindrical, one spherical."""
+    """Coordinate-system objects 1..6 of the model: two distinct Cartesian, one cylindrical, one spherical, and a
+    cylindrical and a spherical one wrapping the SAME CoordSys3D as Cartesian system 1."""
     global _SYS  # pylint: disable=global-statement
     from symplyphysics.core.coordinate_systems.coordinate_systems import CoordinateSystem
     if _SYS is None:
         _SYS = {1: CoordinateSystem(), 2: CoordinateSystem(),
                 3: CoordinateSystem(CoordinateSystem.System.CYLINDRICAL),
                 4: CoordinateSystem(CoordinateSystem.System.SPHERICAL)}
+        _SYS[5] = CoordinateSystem(CoordinateSystem.System.CYLINDRICAL, _SYS[1].coord_system)
+        _SYS[6] = CoordinateSystem(CoordinateSystem.System.SPHERICAL, _SYS[1].coord_system)
     return _SYS
 
 
@@ -585,11 +588,11 @@ def main() -> int:
     _init()
     with Scratch() as sc:
         full = (0, 1, 2, 3)
-        emitted = model_and_emit(run, sc, [("pairs", t["pairs"], {1}, 2, full, "Emit"), ("systems", "Grid1", {1, 2, 3, 4}, 2, full, "Emit"),
+        emitted = model_and_emit(run, sc, [("pairs", t["pairs"], {1}, 2, full, "Emit"), ("systems", "Grid1", {1, 2, 3, 4, 5, 6}, 2, full, "Emit"),
                                            ("triples", t["triples"], {1}, 3, full, "Emit"),
                                            # n-ary sums / differences over all system combinations, offending operand anywhere
-                                           ("nary3", "Grid1", {1, 2, 3, 4}, 3, full, "EmitNary"),
-                                           ("nary4", "Grid1", {1, 2, 3, 4}, 4, (0, 2), "EmitNary")])
+                                           ("nary3", "Grid1", {1, 2, 3, 4, 5, 6}, 3, (0, 1, 3), "EmitNary"),
+                                           ("nary4", "Grid1", {1, 2, 3, 5, 6}, 4, (0, 2), "EmitNary")])
         pairs, systems, triples = emitted["pairs"], emitted["systems"], emitted["triples"]
         nary = emitted["nary3"] + emitted["nary4"]
 
